@@ -51,6 +51,15 @@ CHECKS["C05"] = dict(text="The real approximate_instances / _approximate_instanc
 CHECKS["C07"] = dict(text="The real ASSD code path (__surface_distances, _distance_transform_edt incl. ft - indices, squaring, add.reduce, sqrt, masked mean) runs on pairs of fully symbolic Boolean masks; the result is compared by SMT query with an oracle built straight from the statement (border voxels, nearest-border distances, mean of the two directed means), plus symmetry, non-negativity, 'zero iff borders coincide', embedding invariance, and exactness of the squared distance for arbitrary feature-transform coordinates up to 2^17.",
              note="binary_erosion / euclidean_feature_transform are contract stubs; sqrt of the finitely many squared distances are bounded monotone real constants (linear arithmetic); float last-ulp outside the claim; mask size bound",
              ref="DESIGN.md section 4 / C07")
+CHECKS["C01"] = dict(text="The whole pipeline - evaluate, crop, instance approximation (CC contract stubs), overlap-pair extraction, matching with the real sorted order, relabelling, per-instance evaluation, result object - runs in ONE symbolic execution on fully symbolic label maps (every voxel a solver variable) with free real matching/decision thresholds; on every path the reported instance counts, tp/fp/fn, per-TP Dice/IoU/RVD multisets, sq and rq are compared with an independent oracle of the documented procedure evaluated on the path's voxel counts; tied competing candidates are excluded as the statement excludes them.",
+             note="small arrays (3-5 voxels, <= 2 instances per side for instance input); ASSD end to end outside this run; 3x3-instance behaviour is covered compositionally by C03/C02/C04/C09; float64 as exact rationals",
+             ref="DESIGN.md section 4 / C01")
+CHECKS["C10"] = dict(text="_get_bbox_nd on symbolic images with symbolic padding is compared with 'tight box widened by the pad and clipped'; the per-instance crop is compared with the uncropped kernels on 1-D maps long enough for any pad up to 5; and the whole pipeline is run twice per path - original vs. zero-embedded at an offset, reversed, transposed, flipped - with all counts and per-TP values required to be equal.",
+             note="memory layout (C/Fortran order, negative strides) is not representable in the array model: NOT decided; every witness is replayed as non-contiguous view, contiguous copy and Fortran-ordered copy on the real package (validation only); small arrays",
+             ref="DESIGN.md section 4 / C10")
+CHECKS["C11"] = dict(text="Two runs per path with prediction and reference exchanged: the whole pipeline on symbolic label maps (tp equal, fp/fn exchanged, IoU/Dice multisets equal, RVD mirrored to -r/(1+r)), the per-instance crop + kernels on longer 1-D maps, and the real threshold matcher on a symbolic contingency pattern vs. its transpose with free real scores (assignment transposed when no competing candidates tie).",
+             note="ASSD symmetry is decided at kernel level in C07; size bounds; ties excluded",
+             ref="DESIGN.md section 4 / C11")
 NA = {}
 m = {"version": 1, "setup_cmd": "./bootstrap.sh",
      "hooks": {"guard": "PANOPTICA_VERIF", "enable": "no hooks in /repo: checks re-import /repo/panoptica from the working tree into a private twin with model modules substituted at import time (pv/twin.py)",
